@@ -66,83 +66,37 @@ Proof.
   destruct Ho as [->| ->]; simpl; apply K.
 Qed.
 
-(** flags a copy starts with: the original's, plus \Recent unless some atom contains it *)
-Lemma copy_flags_spec fl f :
-  In f (copy_flags fl) <-> In f fl \/ (f = RECENT /\ flags_contain fl RECENT = false).
+(** flags a copy starts with: the original's, plus \Recent *)
+Lemma copy_flags_spec fl f : In f (copy_flags fl) <-> In f fl \/ f = RECENT.
 Proof.
-  unfold copy_flags, flags_contain. destruct (existsb _ fl).
-  - split; [auto | intros [H|[_ H]]; [assumption | discriminate]].
-  - rewrite in_app_iff. simpl. split; [intros [H|[<-|[]]]; auto | intros [H|[-> _]]; auto].
+  unfold copy_flags. destruct (mem RECENT (to_set fl)) eqn:E.
+  - apply mem_In in E. rewrite to_set_In in E. split; [auto | intros [H|H]; [assumption | rewrite H; exact E]].
+  - rewrite in_app_iff. simpl. split; [intros [H|[<-|[]]]; auto | intros [H| ->]; auto].
 Qed.
 
-(** ---------- (b) queries ---------- *)
+(** (d) an operation of a session that opened the mailbox with EXAMINE changes nothing *)
+Definition read_only_op (o : op) : Prop :=
+  match o with
+  | OStore ro _ _ _ _ _ => ro = true
+  | OUidStore ro _ _ _ _ _ => ro = true
+  | OExpunge ro _ => ro = true
+  | _ => False
+  end.
 
-Lemma contains_refl q : contains q q = true.
-Proof.
-  unfold contains. destruct q as [|c q]; [reflexivity|].
-  cbn [index]. pose proof (has_prefix_app [] (c :: q)) as H. rewrite app_nil_r in H. now rewrite H.
-Qed.
+Theorem examine_changes_nothing e s o : read_only_op o -> step e s o = s.
+Proof. destruct o; simpl; try contradiction; intros ->; reflexivity. Qed.
 
-Lemma flags_contain_exact fl q : no_proper_super fl q = true -> flags_contain fl q = mem q fl.
-Proof.
-  unfold no_proper_super, flags_contain, mem. induction fl as [|f fl IH]; simpl; [reflexivity|].
-  intros H. apply andb_true_iff in H. destruct H as [H1 H2]. rewrite (IH H2). f_equal.
-  destruct (str_eqb_spec f q) as [->|Hn].
-  - now rewrite contains_refl, str_eqb_refl.
-  - rewrite orb_false_r in H1. apply negb_true_iff in H1. rewrite H1.
-    symmetry. apply str_eqb_neq. congruence.
-Qed.
+(** ---------- (b) queries: whole-word tests are set membership ---------- *)
 
-Lemma like_has_exact fl q : no_proper_super_ci fl q = true -> like_has fl q = mem q fl.
-Proof.
-  unfold no_proper_super_ci, like_has, mem. induction fl as [|f fl IH]; simpl; [reflexivity|].
-  intros H. apply andb_true_iff in H. destruct H as [H1 H2]. rewrite (IH H2). f_equal.
-  destruct (str_eqb_spec f q) as [->|Hn].
-  - now rewrite contains_refl, str_eqb_refl.
-  - rewrite orb_false_r in H1. apply negb_true_iff in H1. rewrite H1.
-    symmetry. apply str_eqb_neq. congruence.
-Qed.
+Lemma key_holds_exact k fl : key_holds k fl = spec_key_holds k fl.
+Proof. destruct k; reflexivity. Qed.
 
-Lemma key_holds_exact k fl :
-  (forall q, In q (key_atoms k) -> no_proper_super fl q = true) -> key_holds k fl = spec_key_holds k fl.
-Proof.
-  intros H. destruct k as [q|q|]; simpl in *.
-  - apply flags_contain_exact, H. now left.
-  - f_equal. apply flags_contain_exact, H. now left.
-  - rewrite !flags_contain_exact; auto.
-Qed.
-
-Lemma positions_ext {A} (p q : A -> bool) l : (forall x, In x l -> p x = q x) ->
-  forall i, positions p i l = positions q i l.
-Proof.
-  induction l as [|x l IH]; simpl; intros H i; [reflexivity|].
-  rewrite (H x (or_introl eq_refl)), IH; [reflexivity|]. intros y Hy. apply H. now right.
-Qed.
-
-Theorem search_exact ls mb k :
-  (forall l q, In l ls -> lk_mbox l = mb -> In q (key_atoms k) -> no_proper_super (lk_flags l) q = true) ->
-  search ls mb k = spec_search ls mb k.
-Proof.
-  intros H. unfold search, spec_search. apply positions_ext. intros l Hl.
-  apply mbox_links_In in Hl. destruct Hl as [Hl Hm]. apply key_holds_exact. intros q Hq. now apply (H l q).
-Qed.
-
-Lemma filter_ext_in_l {A} (p q : A -> bool) l : (forall x, In x l -> p x = q x) -> filter p l = filter q l.
-Proof.
-  induction l as [|x l IH]; simpl; intros H; [reflexivity|].
-  rewrite (H x (or_introl eq_refl)), IH; [reflexivity|]. intros y Hy. apply H. now right.
-Qed.
+Theorem search_exact ls mb k : search ls mb k = spec_search ls mb k.
+Proof. reflexivity. Qed.
 
 Theorem unseen_exact ls mb :
-  (forall l, In l ls -> lk_mbox l = mb -> no_proper_super_ci (lk_flags l) SEEN = true) ->
   unseen_count ls mb = spec_unseen_count ls mb /\ first_unseen ls mb = spec_first_unseen ls mb.
-Proof.
-  intros H. unfold unseen_count, spec_unseen_count, first_unseen, spec_first_unseen. split.
-  - f_equal. f_equal. apply filter_ext_in_l. intros l Hl. apply filter_In in Hl. destruct Hl as [Hl Hm].
-    f_equal. apply like_has_exact, H; [assumption|]. unfold in_mbox in Hm. now apply Z.eqb_eq.
-  - f_equal. apply positions_ext. intros l Hl. apply mbox_links_In in Hl. destruct Hl as [Hl Hm].
-    f_equal. now apply like_has_exact, H.
-Qed.
+Proof. split; reflexivity. Qed.
 
 (** what FETCH (UID FLAGS) reports is the table: a row is in the view of its mailbox *)
 Lemma view_complete ls mb l : In l ls -> lk_mbox l = mb -> In (lk_uid l, lk_flags l) (view ls mb).
